@@ -64,16 +64,16 @@ def _p6(ctx, g, root, fl, shared):
     rsub = short_fn(root)
     waits = x.ext_calls(r'wait::Wait::wait$')
     futw = x.inlined(r'FutWait::fut_wait$')
-    if not waits and not futw:
-        return   # try_* root: nothing to wait on
     pos = x.atoms_on('ReaderPos.pos_data')
     POSOBS = {a.nid for a in pos if a.op == 'load' or a.op in CAS_OPS}
     tagloads = {a.nid for a in x.atoms_on('QueueEntry.wraps', ops={'load'})}
-    # a: signal examined before the first try
+    # a: signal examined before the first try (every receive root, blocking or not)
     sig = {a.nid for a in x.atoms_on('AtomicSignal.flags', ops={'load'})}
     ok = bool(sig) and all(x.dom(sig, t) for t in tagloads)
     ctx.add('P6a', 'T-MUST', root, ok, 'the signal word is examined before the first receive attempt' if ok else
             'a receive attempt is reachable without examining the signal word (epoch announcements would be skipped)', flavour=fl, sub=rsub)
+    if not waits and not futw:
+        return   # try_* root: nothing to wait on
     # b: result mapping
     disc = {nid for (nid, si, rv) in x.aggs(r'TryRecvError::Disconnected$')}
     empt = {nid for (nid, si, rv) in x.aggs(r'TryRecvError::Empty$')}
@@ -132,11 +132,18 @@ def _p6(ctx, g, root, fl, shared):
             idxs = {s.nid for s in idx}
             blockers_ = set(waits) | set(futw)
             late = [s_ for s_ in sorted(seqsrc) if s_ not in idxs and any(x.reaches(i, s_, blocked=blockers_) for i in idxs)]
+            # ... and it is re-observed in every iteration: a wait with a position that went stale while the
+            # loop kept trying is "ready" at once every time (the call spins instead of sleeping / returning NotReady)
+            stale_loop = x.reaches(w, w, blocked=seqsrc)
+            if stale_loop:
+                late.append(w)
             okd = bool(seqsrc) and bool(idxs) and not late
             ctx.add('P6d', 'T-FLOW', root, okd,
                     'the sequence number handed to the waiter is observed no later than the position that indexed the examined slot (so it can never be ahead of the slot)' if okd else
-                    'the waiter gets a sequence number re-loaded (%s) after the attempt that chose the slot: when a sibling consumer advanced the stream in between, the sleeper waits on (p+1, slot(p)) and only wakes when the ring wraps'
-                    % ', '.join(x.describe(s) for s in late), flavour=fl, where=g.where(w), sub='%s|pair' % rsub)
+                    ('the loop waits again without re-observing the stream position: after a sibling consumer advanced the stream the stale sequence number makes every wait return "ready" at once, so the call spins instead of sleeping / returning NotReady'
+                     if stale_loop else
+                     'the waiter gets a sequence number re-loaded (%s) after the attempt that chose the slot: when a sibling consumer advanced the stream in between, the sleeper waits on (p+1, slot(p)) and only wakes when the ring wraps'
+                     % ', '.join(x.describe(s) for s in late)), flavour=fl, where=g.where(w), sub='%s|pair' % rsub)
 
 
 def _p7(ctx):
@@ -179,12 +186,17 @@ def _p7(ctx):
                         lockfield = p.split('/')[-1]
                 okheld = held_at(gw, xw, mylocks, cw)
                 # the condition is re-checked between lock and sleep: loads of the awaited cell
-                cond_loads = {a.nid for a in xw.atoms.values() if a.op == 'load' and any(s[0] == 'param' and s[1] == gw.root_inst and s[2] in (3, 4)
-                                                                                           for c_ in [a.nid] for arg in gw.call_args(c_)[:1] for s in gw.walk(arg))}
-                okchk = bool(cond_loads) and all(cw not in xw.reach_from(l, blocked=cond_loads) for l in mylocks)
+                def loads_of(pi):
+                    return {a.nid for a in xw.atoms.values() if a.op == 'load' and
+                            any(s_[0] == 'param' and s_[1] == gw.root_inst and s_[2] == pi for arg in gw.call_args(a.nid)[:1] for s_ in gw.deep_walk(arg))}
+                at_loads, wc_loads = loads_of(3), loads_of(4)
+                cond_loads = at_loads | wc_loads
+                # BOTH wake-up reasons are re-evaluated under the lock: a value published into the awaited
+                # slot and the writer count reaching zero (the last sender's drop notifies only once)
+                okchk = bool(at_loads) and bool(wc_loads) and all(cw not in xw.reach_from(l, blocked=at_loads) and cw not in xw.reach_from(l, blocked=wc_loads) for l in mylocks)
                 ctx.add('P7b', 'T-DOM', methods['wait'], okheld and okchk,
                         '%s: every sleep is inside the lock region and after a re-check of the awaited cell under the lock' % adt if okheld and okchk else
-                        '%s::wait: sleep at %s held-under-lock=%s, condition re-checked under the lock=%s (lost wake-up window)' % (adt, gw.where(cw), okheld, okchk),
+                        '%s::wait: sleep at %s held-under-lock=%s, awaited slot AND writer count both re-checked under the lock=%s (lost wake-up window: the notification of a publish / of the last sender\'s drop can fall between the check and the sleep)' % (adt, gw.where(cw), okheld, okchk),
                         where=gw.where(cw), sub='%s|sleep' % adt)
                 # notify side
                 nlocks = [n for n in xn.ext_calls(LOCK_RE) if lockfield and any(p.endswith(lockfield) for p in gn.locpaths(gn.call_args(n)[0]))]
@@ -275,9 +287,12 @@ def _p7(ctx):
         # full drain: the drain range is `..` (RangeFull)
         full = all('RangeFull' in (g.nodes[d].term['args'][1].get('ty') or (g.nodes[d].term['args'][1].get('pl') or {}).get('ty') or '') for d in drains)
         # every non-empty path drains: exits reachable without a drain only via a "len == 0" test
+        trunc = [n_ for n_ in x.ext_calls(r'Iterator::(take|skip|step_by|filter|take_while|skip_while|nth|last|find|map_while|peekable)$')
+                 if set(drains) & x.calls_in(g.call_args(n_)[0])]
+        full = full and not trunc
         ok = okl and full and bool(notifies)
         ctx.add('P7c', 'T-DOM', fn, ok, 'notify: lock the list, drain every parked task, notify each' if ok else
-                '%s: drain under the list lock=%s, drains the full list=%s, notifies tasks=%s' % (short_fn(fn), okl, full, bool(notifies)), sub=short_fn(fn))
+                '%s: drain under the list lock=%s, every drained task is notified (full range, no truncating adaptor)=%s, notifies tasks=%s' % (short_fn(fn), okl, full, bool(notifies)), sub=short_fn(fn))
         skip = x.reachable_entry(blocked=set(drains)) & set(g.exits)
         if skip:
             # allowed only behind an emptiness test of the list
